@@ -68,6 +68,11 @@ class Model:
             "    def reserve(cls, n: int = 4, pad: int = 1) -> int: ...",
             "    @staticmethod",
             "    def clamp(value: float, lo: float = 0.0, hi: float = 1.0) -> float: ...",
+            # model classes that derive from one of python's own types: their inherited methods are method descriptors
+            "class Hits(list):",
+            "    def nhits(self, scale: int = 2) -> int: ...",
+            "class Label(str):",
+            "    pass",
             "@register_func_adl_os_collection",
             "class RegColl(ObjectStreamInternalMethods[T]):",
             "    def __init__(self, a, item_type=Any):",
@@ -87,6 +92,16 @@ class Model:
             self.sigs[(owner, "clamp")] = [("value", "float", E), ("lo", "float", 0.0), ("hi", "float", 1.0)]
         self.sigs[("MyIter", "Take")] = [("n", "int", E), ("m", "int", 2)]
         self.sigs[("MyIter", "own")] = [("n", "int", 3)]
+        import sys
+
+        self.sigs[("Hits", "count")] = [("value", "int", E)]
+        self.sigs[("Hits", "index")] = [("value", "int", E), ("start", "int", 0), ("stop", "int", sys.maxsize)]
+        self.sigs[("Hits", "nhits")] = [("scale", "int", 2)]
+        self.sigs[("Label", "upper")] = []
+        self.sigs[("Label", "zfill")] = [("width", "int", E)]
+        for cls in ("Trk", "Jet", "Event"):
+            self.sigs[(cls, "hits")] = []
+            self.sigs[(cls, "label")] = []
         for cls in ("Trk", "Jet", "Event"):
             src.append(f"class {cls}(Tagged, Calibrated):" if cls == "Jet" else f"class {cls}:")
             # a method whose result type is a type variable nothing binds: the call is still a known call
@@ -95,6 +110,11 @@ class Model:
             src += ["    @functools.lru_cache(maxsize=None)", f"    def cached({RECEIVER}, a: int = 1, b: float = 2.0) -> float: ..."]
             self.sigs[(cls, "cached")] = [("a", "int", 1), ("b", "float", 2.0)]
             self.ret[(cls, "cached")] = "float"
+            # ... and a classmethod behind one (bound already when it is looked up: the wrapper's signature has no receiver)
+            src += ["    @classmethod", "    @functools.lru_cache(maxsize=None)", "    def cached_cls(cls, scale: float = 1.0, unit: str = 'GeV') -> float: ..."]
+            self.sigs[(cls, "cached_cls")] = [("scale", "float", 1.0), ("unit", "str", "GeV")]
+            self.ret[(cls, "cached_cls")] = "float"
+            src += ["    def hits(self) -> Hits: ...", "    def label(self) -> Label: ..."]
             self.sigs[(cls, "gen")] = [("x", "S", E), ("strict", "bool", False), ("level", "int", 3)]
             self.ret[(cls, "gen")] = "Any"
             for m in names:
